@@ -415,8 +415,19 @@ def _main(engine_cls, script, holder):
                                                                      "base_seed": base_seed, "tier": args.tier}})
         hits = confirm_fresh(engine, path, script, attempts=6 if nondet else 1)
         if not hits and not nondet:
-            hits = confirm_fresh(engine, path, script, attempts=5)
+            hits = confirm_fresh(engine, path, script, attempts=4)
             nondet = bool(hits)
+        if not hits and res is not None:
+            # the minimised history fails only next to what this process had cached (e.g. a reference computed in another
+            # memory state): go back to the history exactly as it was found
+            nondet = True
+            wl, tape, v = rec["workload"], rec["tape"], Violation.from_json(rec["violation"])
+            key = engine.finding_key(wl, v)
+            core.write_json(path, {"property": engine.prop, "signature": sig, "finding_key": key,
+                                   "workload": wl, "tape": tape, "seed": derive_seed(rec["seed"], "sched"),
+                                   "violation": v.to_json(), "minimised": False,
+                                   "found_by": {"run_index": rec["index"], "run_seed": rec["seed"], "base_seed": base_seed, "tier": args.tier}})
+            hits = confirm_fresh(engine, path, script, attempts=6)
         if not hits:
             harness_problems.append(f"violation {sig} (run {rec['index']}) did not reproduce in a fresh interpreter: {path}")
             continue
